@@ -300,6 +300,8 @@ class ChangeScenario(Scenario):
                 w.edit(K, 'ns', args[0], _truncate)
             elif action == 'status':
                 w.merge(K, 'ns', args[0], {'status': {'foreign': args[1]}})
+            elif action == 'statusset':   # any key of the status stanza, any JSON value (false, 0, '' included)
+                w.merge(K, 'ns', args[0], {'status': {args[1]: args[2]}})
             elif action == 'annotate':
                 w.merge(K, 'ns', args[0], {'metadata': {'annotations': {args[1]: args[2]}}})
             elif action == 'delete':
